@@ -1,5 +1,6 @@
 """Engine base: obligations, feasibility, heap access, typing facts, allocation."""
 import ast
+import os
 import z3
 
 import frontend
@@ -112,6 +113,7 @@ class EngineBase:
         self.recfuncs = _RECFUNCS     # z3 recursive functions are global to the z3 context
         self.binders = []
         self.in_old = 0
+        self.full_prune = bool(os.environ.get('VERIF_FULL_PRUNE'))
         self.snapshot_idx = {}
         self.pid = None          # property being checked: clauses tagged for other properties are skipped
 
@@ -220,7 +222,17 @@ class EngineBase:
         # pruning uses the quantifier-free part of the path condition only
         # (weaker => an `unsat` answer is still sound for the full condition)
         s.add(*[c for c in st.pc if not has_quantifier(c)])
-        return s.check() != z3.unsat
+        if s.check() == z3.unsat:
+            return False
+        if self.full_prune and any(has_quantifier(c) for c in st.pc[-6:]) is False:
+            # second stage: the whole path condition under a small deterministic resource limit
+            s2 = z3.Solver()
+            s2.set('rlimit', 300000)
+            s2.set('timeout', 400)
+            s2.add(*st.pc)
+            if s2.check() == z3.unsat:
+                return False
+        return True
 
     def fork(self, st, cond):
         """Split a state on a z3 Bool / Python bool; returns [(st_true), (st_false)] with None if infeasible."""
